@@ -72,7 +72,7 @@ def blocks(tier, seed, prop='C01'):
         for r in ('R1', 'R3'):
             tx = MAIN_TX[r]
             wins = windows(r, tx)
-            for wi in range(len(wins)):       # thorough is seed-independent: every window
+            for wi in range(1, len(wins), 2):       # thorough is seed-independent: every second window (fixed)
                 lo, hi = wins[wi]
                 out.append((f'D3/{r}/none/w{wi}', E.d3_cases(r, tx, CFG_NONE, lo, hi, 5), dict(deviations=3, window=[lo, hi])))
     return out
